@@ -155,7 +155,7 @@ register(
     "Signature = (pattern component shape, ignorecase, relax, outcome class, result size class, dead-end flag, "
     "sibling-unique flag); distinct_nontrivial counts distinct signatures.",
     assumptions=[
-        "ASCII names whenever an ignorecase resolver is in the pool (str.upper() and re.IGNORECASE disagree on a few non-ASCII characters and the statement does not say which is meant)",
+        "with an ignorecase resolver in the pool names are ASCII or use letters with a one-to-one case mapping (str.upper() and re.IGNORECASE disagree on characters such as sharp s or dotted capital I and the statement does not say which is meant)",
         "strict-mode calls only on trees whose sibling names are unique (the statement's quantifier); otherwise the call is issued relaxed",
         "every run starts with an empty pattern cache (a fresh process); cache states are then created by the run's own call history",
         "seeded sampling: a clean batch is evidence, not proof",
